@@ -66,14 +66,14 @@ def obsTup (x : Obs FB) : Tup := (x.1.1, x.2.1.len, x.2.1.sup, x.2.2.1, x.2.2.2.
 mutual
 theorem entsT_tup (all : List String) : ∀ c : T, (entsT all c).map Ent.tup = (obsT (FF all) c).map obsTup
   | .node d p k => by
-    have := entsL_tup all false k
+    have := entsL_tup all false false k
     simp only [entsT, obsT]; exact this
-theorem entsL_tup (all : List String) (top : Bool) :
-    ∀ k : Kids, (entsL all top false k).map Ent.tup = (obsL (FF all) k).map obsTup
+theorem entsL_tup (all : List String) (top pd : Bool) :
+    ∀ k : Kids, (entsL all top false pd k).map Ent.tup = (obsL (FF all) k).map obsTup
   | [] => by simp [entsL, obsL]
   | (e, c) :: r => by
     have h1 := entsT_tup all c
-    have h2 := entsL_tup all top r
+    have h2 := entsL_tup all top pd r
     simp only [entsL, obsL, List.map_cons, List.map_append, h1, h2]
     congr 1
     simp [Ent.tup, obsTup, FF, T.name]
@@ -84,7 +84,7 @@ theorem ents_tup (all : List String) (t : T) (h1 : t.kids.length ≠ 1) :
   unfold ents
   have : (t.kids.length == 1) = false := by simpa using h1
   rw [this, obsT_kids]
-  exact entsL_tup all true t.kids
+  exact entsL_tup all true _ t.kids
 
 def keyT (u : Tup) : Key := (u.1, u.2.1, u.2.2.1, u.2.2.2.2.1)
 
@@ -134,42 +134,6 @@ theorem mandT_keepV (crit : Crit) (rt : Bool) (x : Obs FB) :
   rw [holdsT_obsTup]
   obtain ⟨fb, e, tip, d⟩ := x
   cases hc : critV crit (fb, e, tip) <;> cases tip <;> cases rt <;> simp [keyT, obsTup, zeroLen]
-
-/-- The collapse oracle accepts every tree `a` whose observed branch list is the filtered list of
-    `b`'s, on the same tips and root, for an unrooted `b` without single-child nodes. -/
-theorem collapseOK_of_obs (crit : Crit) (rt : Bool) (b a : T)
-    (hb3 : 3 ≤ b.kids.length) (hns : b.noSingle = true) (ha1 : a.kids.length ≠ 1)
-    (htips : a.tipNames.Perm b.tipNames) (hname : a.d = b.d)
-    (hobs : (obsT (FF b.tipNames) a).Perm ((obsT (FF b.tipNames) b).filterMap (keepV (critV crit) rt))) :
-    collapseOK crit rt b a = true := by
-  have hb1 : b.kids.length ≠ 1 := by omega
-  have hrooted : b.rooted = false := by unfold T.rooted; simp; omega
-  unfold collapseOK
-  simp only [hns, hrooted, exactRegion, Bool.false_and, Bool.not_false, Bool.not_true, Bool.or_self, Bool.and_false]
-  -- the optional part is empty
-  have hopt : ((ents b.tipNames b).filterMap fun e : Ent => if false = true then some e.key else none) = [] := by
-    simp
-  simp only [hopt]
-  rw [mand_eq, ents_tup _ b hb1, List.filterMap_map]
-  have hkeys : (ents b.tipNames a).map Ent.key = (obsT (FF b.tipNames) a).map (fun y => keyT (obsTup y)) := by
-    have := ents_tup b.tipNames a ha1
-    have h2 : (ents b.tipNames a).map Ent.key = ((ents b.tipNames a).map Ent.tup).map keyT := by
-      rw [List.map_map]; rfl
-    rw [h2, this, List.map_map]; rfl
-  rw [hkeys]
-  have hperm : ((obsT (FF b.tipNames) a).map (fun y => keyT (obsTup y))).Perm
-      ((obsT (FF b.tipNames) b).filterMap (mandT crit rt ∘ obsTup)) := by
-    refine (hobs.map _).trans (List.Perm.of_eq ?_)
-    rw [List.map_filterMap]
-    apply filterMap_congr'
-    intro x _
-    exact mandT_keepV crit rt x
-  rw [msub_of_perm _ _ hperm.symm, mdiff_of_perm _ _ hperm]
-  have h1 : (sortS a.tipNames == sortS b.tipNames) = true := by
-    rw [sortS_perm_eq htips]; exact beq_self_eq_true _
-  have h2 : (a.name == b.name) = true := by
-    unfold T.name; rw [hname]; exact beq_self_eq_true _
-  simp [h1, h2, msub]
 
 end Gotree.C07
 
@@ -262,7 +226,8 @@ theorem resolveOK_of_obs (b a : T) (hb1 : b.kids.length ≠ 1) (ha1 : a.kids.len
     (ex : List (ObsR FB)) (hnew : ∀ x ∈ ex, IsNew x)
     (hobs : (RT (FF b.tipNames) a).Perm (RT (FF b.tipNames) b ++ ex))
     (hdist : ∀ x y : String, a.dist x y = b.dist x y)
-    (hbin : b.noSingle = true → 2 ≤ b.kids.length → a.binary = true) :
+    (hbin : b.noSingle = true → 2 ≤ b.kids.length → a.binary = true)
+    (hdeg3 : deg3 a = true) :
     resolveOK b a = true := by
   unfold resolveOK
   simp only
@@ -299,7 +264,7 @@ theorem resolveOK_of_obs (b a : T) (hb1 : b.kids.length ≠ 1) (ha1 : a.kids.len
         · right; simpa using fun h => hc ⟨hn, h⟩
         · left; simpa using hn
       rw [this]; rfl
-  simp only [h1, h2, h3, h4, h5, h6, Bool.and_self]
+  simp only [h1, h2, h3, h4, h5, h6, hdeg3, Bool.and_self]
 
 end Gotree.C07
 
@@ -312,8 +277,8 @@ mutual
 theorem entsT_root (all : List String) : ∀ (c : T), ∀ e ∈ entsT all c, e.root = false
   | .node d p k => by
     intro e he
-    exact entsL_root all k e (by simpa [entsT] using he)
-theorem entsL_root (all : List String) : ∀ (k : Kids), ∀ e ∈ entsL all false false k, e.root = false
+    exact entsL_root all _ k e (by simpa [entsT] using he)
+theorem entsL_root (all : List String) (pd : Bool) : ∀ (k : Kids), ∀ e ∈ entsL all false false pd k, e.root = false
   | [] => by intro e he; simp [entsL] at he
   | (ed, c) :: r => by
     intro e he
@@ -321,12 +286,30 @@ theorem entsL_root (all : List String) : ∀ (k : Kids), ∀ e ∈ entsL all fal
     rcases he with rfl | he | he
     · rfl
     · exact entsT_root all c e he
-    · exact entsL_root all r e he
+    · exact entsL_root all pd r e he
+end
+
+/- below the root branches no branch is protected -/
+mutual
+theorem entsT_prot (all : List String) : ∀ (c : T), ∀ e ∈ entsT all c, e.prot = false
+  | .node d p k => by
+    intro e he
+    exact entsL_prot all k e (by simpa [entsT] using he)
+theorem entsL_prot (all : List String) : ∀ (k : Kids), ∀ e ∈ entsL all false false false k, e.prot = false
+  | [] => by intro e he; simp [entsL] at he
+  | (ed, c) :: r => by
+    intro e he
+    simp only [entsL, List.mem_cons, List.mem_append] at he
+    rcases he with rfl | he | he
+    · rfl
+    · exact entsT_prot all c e he
+    · exact entsL_prot all r e he
 end
 
 /-- the entry of a root branch -/
 def rootEnt (all : List String) (e : EdgeD) (c : T) : Ent :=
-  ⟨canonSide all c.leaves, e.len, e.sup, c.isLeaf || false, c.name, true, lightSize all c.leaves, e.id⟩
+  ⟨canonSide all c.leaves, e.len, e.sup, c.isLeaf || false, c.name, true, lightSize all c.leaves, e.id,
+    true⟩
 
 theorem ents_rooted (all : List String) (d : NodeD) (p : Nat) (e1 e2 : EdgeD) (c1 c2 : T) :
     ents all (.node d p [(e1, c1), (e2, c2)]) =
@@ -338,15 +321,15 @@ def mandE (crit : Crit) (rt : Bool) (e : Ent) : Option Key :=
   if e.tip then some (if rt && crit.holds e then ({ e with len := 0 } : Ent).key else e.key)
   else if crit.holds e then none else some e.key
 
-def optE (crit : Crit) (rootedB strict : Bool) (e : Ent) : Option Key :=
-  if !e.tip && crit.holds e && (!(!(rootedB && e.root)) || !strict) then some e.key else none
+def optE (crit : Crit) (e : Ent) : Option Key :=
+  if !e.tip && crit.holds e && e.prot then some e.key else none
 
 theorem collapseOK_eq (crit : Crit) (rt : Bool) (b a : T) :
     collapseOK crit rt b a =
       (sortS a.tipNames == sortS b.tipNames && a.name == b.name
         && msub ((ents b.tipNames b).filterMap (mandE crit rt)) ((ents b.tipNames a).map Ent.key)
         && msub (mdiff ((ents b.tipNames a).map Ent.key) ((ents b.tipNames b).filterMap (mandE crit rt)))
-             ((ents b.tipNames b).filterMap (optE crit b.rooted b.noSingle))) := rfl
+             ((ents b.tipNames b).filterMap (optE crit))) := rfl
 
 /-- General form: whatever the tree before (rooted or not, with or without single-child nodes), as
     long as its root is not a tip: if the observed branch list after is exactly the filtered list,
@@ -382,11 +365,20 @@ theorem collapseOK_of_obs' (crit : Crit) (rt : Bool) (b a : T)
     unfold T.name; rw [hname]; exact beq_self_eq_true _
   simp [h1, h2, msub]
 
+/-- The collapse oracle accepts every tree `a` whose observed branch list is the filtered list of
+    `b`'s, on the same tips and root, for an unrooted `b` without single-child nodes. -/
+theorem collapseOK_of_obs (crit : Crit) (rt : Bool) (b a : T)
+    (hb3 : 3 ≤ b.kids.length) (_hns : b.noSingle = true) (ha1 : a.kids.length ≠ 1)
+    (htips : a.tipNames.Perm b.tipNames) (hname : a.d = b.d)
+    (hobs : (obsT (FF b.tipNames) a).Perm ((obsT (FF b.tipNames) b).filterMap (keepV (critV crit) rt))) :
+    collapseOK crit rt b a = true :=
+  collapseOK_of_obs' crit rt b a (by omega) ha1 htips hname hobs
+
 theorem optE_below (crit : Crit) (all : List String) (c : T) :
-    (entsT all c).filterMap (optE crit true true) = [] := by
+    (entsT all c).filterMap (optE crit) = [] := by
   rw [List.filterMap_eq_nil_iff]
   intro e he
-  simp [optE, entsT_root all c e he]
+  simp [optE, entsT_prot all c e he]
 
 theorem keys_below (all : List String) (c : T) :
     (entsT all c).map Ent.key = (obsT (FF all) c).map (fun y => keyT (obsTup y)) := by
@@ -427,7 +419,7 @@ theorem rootEnt_key (crit : Crit) (rt : Bool) (all : List String) (e e' : EdgeD)
     (hl : c'.leaves.Perm c.leaves) (_hleaf : c'.isLeaf = c.isLeaf) (hd : c'.d = c.d)
     (he' : e' = if crit.holds (rootEnt all e c) = true ∧ c.isLeaf = true ∧ rt = true then zeroLen e else e) :
     [(rootEnt all e' c').key] =
-      (mandE crit rt (rootEnt all e c)).toList ++ (optE crit true true (rootEnt all e c)).toList := by
+      (mandE crit rt (rootEnt all e c)).toList ++ (optE crit (rootEnt all e c)).toList := by
   have hside : canonSide all c'.leaves = canonSide all c.leaves := canonSide_permInv all _ _ hl
   have hname : c'.name = c.name := by unfold T.name; rw [hd]
   have hk : ∀ x : EdgeD, (rootEnt all x c').key = (canonSide all c.leaves, x.len, x.sup, c.name) := by
@@ -435,7 +427,7 @@ theorem rootEnt_key (crit : Crit) (rt : Bool) (all : List String) (e e' : EdgeD)
   have hk0 : (rootEnt all e c).key = (canonSide all c.leaves, e.len, e.sup, c.name) := by
     simp [rootEnt, Ent.key]
   have htip : (rootEnt all e c).tip = c.isLeaf := by simp [rootEnt]
-  have hroot : (rootEnt all e c).root = true := rfl
+  have hroot : (rootEnt all e c).prot = true := by simp [rootEnt]
   subst he'
   rw [hk]
   unfold mandE optE
@@ -445,7 +437,7 @@ theorem rootEnt_key (crit : Crit) (rt : Bool) (all : List String) (e e' : EdgeD)
 
 theorem collapseOK_rooted_of (crit : Crit) (rt : Bool) (d : NodeD) (p : Nat) (e1 e2 e1' e2' : EdgeD)
     (c1 c2 c1' c2' : T)
-    (hns : (T.node d p [(e1, c1), (e2, c2)]).noSingle = true)
+    (_hns : (T.node d p [(e1, c1), (e2, c2)]).noSingle = true)
     (he1 : e1' = if crit.holds (rootEnt (T.node d p [(e1, c1), (e2, c2)]).tipNames e1 c1) = true ∧ c1.isLeaf = true ∧ rt = true then zeroLen e1 else e1)
     (he2 : e2' = if crit.holds (rootEnt (T.node d p [(e1, c1), (e2, c2)]).tipNames e2 c2) = true ∧ c2.isLeaf = true ∧ rt = true then zeroLen e2 else e2)
     (ho1 : (obsT (FF (T.node d p [(e1, c1), (e2, c2)]).tipNames) c1').Perm
@@ -457,8 +449,7 @@ theorem collapseOK_rooted_of (crit : Crit) (rt : Bool) (d : NodeD) (p : Nat) (e1
     collapseOK crit rt (.node d p [(e1, c1), (e2, c2)]) (.node d p [(e1', c1'), (e2', c2')]) = true := by
   rw [collapseOK_eq]
   generalize hall : (T.node d p [(e1, c1), (e2, c2)]).tipNames = all at *
-  have hrooted : (T.node d p [(e1, c1), (e2, c2)]).rooted = true := rfl
-  rw [hrooted, hns, ents_rooted, ents_rooted]
+  rw [ents_rooted, ents_rooted]
   have htips : (T.node d p [(e1', c1'), (e2', c2')]).tipNames.Perm all := by
     rw [← hall]
     simp only [T.tipNames, T.kids_node, List.length_cons, List.length_nil, leavesL]
@@ -479,7 +470,7 @@ theorem collapseOK_rooted_of (crit : Crit) (rt : Bool) (d : NodeD) (p : Nat) (e1
     exact mandT_keepV crit rt x
   have hkeys : ((rootEnt all e1' c1' :: (entsT all c1' ++ (rootEnt all e2' c2' :: (entsT all c2' ++ [])))).map Ent.key).Perm
       (((rootEnt all e1 c1 :: (entsT all c1 ++ (rootEnt all e2 c2 :: (entsT all c2 ++ [])))).filterMap (mandE crit rt)) ++
-       ((rootEnt all e1 c1 :: (entsT all c1 ++ (rootEnt all e2 c2 :: (entsT all c2 ++ [])))).filterMap (optE crit true true))) := by
+       ((rootEnt all e1 c1 :: (entsT all c1 ++ (rootEnt all e2 c2 :: (entsT all c2 ++ [])))).filterMap (optE crit))) := by
     have r1 := rootEnt_key crit rt all e1 e1' c1 c1' hl1 hf1 hd1 he1
     have r2 := rootEnt_key crit rt all e2 e2' c2 c2' hl2 hf2 hd2 he2
     have e_mand : (rootEnt all e1 c1 :: (entsT all c1 ++ (rootEnt all e2 c2 :: (entsT all c2 ++ [])))).filterMap (mandE crit rt) =
@@ -487,10 +478,10 @@ theorem collapseOK_rooted_of (crit : Crit) (rt : Bool) (d : NodeD) (p : Nat) (e1
           ((mandE crit rt (rootEnt all e2 c2)).toList ++ ((entsT all c2).filterMap (mandE crit rt) ++ []))) := by
       simp only [List.filterMap_cons, List.filterMap_append, List.filterMap_nil]
       cases mandE crit rt (rootEnt all e1 c1) <;> cases mandE crit rt (rootEnt all e2 c2) <;> simp
-    have e_opt : (rootEnt all e1 c1 :: (entsT all c1 ++ (rootEnt all e2 c2 :: (entsT all c2 ++ [])))).filterMap (optE crit true true) =
-        (optE crit true true (rootEnt all e1 c1)).toList ++ (optE crit true true (rootEnt all e2 c2)).toList := by
+    have e_opt : (rootEnt all e1 c1 :: (entsT all c1 ++ (rootEnt all e2 c2 :: (entsT all c2 ++ [])))).filterMap (optE crit) =
+        (optE crit (rootEnt all e1 c1)).toList ++ (optE crit (rootEnt all e2 c2)).toList := by
       simp only [List.filterMap_cons, List.filterMap_append, List.filterMap_nil, optE_below]
-      cases optE crit true true (rootEnt all e1 c1) <;> cases optE crit true true (rootEnt all e2 c2) <;> simp
+      cases optE crit (rootEnt all e1 c1) <;> cases optE crit (rootEnt all e2 c2) <;> simp
     have e_keys : (rootEnt all e1' c1' :: (entsT all c1' ++ (rootEnt all e2' c2' :: (entsT all c2' ++ [])))).map Ent.key =
         ([(rootEnt all e1' c1').key]) ++ ((entsT all c1').map Ent.key ++ ([(rootEnt all e2' c2').key] ++ ((entsT all c2').map Ent.key ++ []))) := by
       simp
